@@ -181,7 +181,9 @@ Definition run_ord (ws : list Z) : list Z :=
          rd_ret (m, l, maxv, brk, pairs, (oc, sel, vals))) ws with
   | Some ((m, l, maxv, brk, pairs, (oc, sel, vals)), []) =>
     match o_hash_set (negb (brk =? 0)) maxv m l pairs with
-    | Done st => if (oc =? 0) && zll_eqb sel (o_selected st) && zll_eqb vals (o_values st) then [0] else [2]
+    | Done st => (if (oc =? 0) && zll_eqb sel (o_selected st) && zll_eqb vals (o_values st) then 0 else 2)
+                 :: (if pairs_okb m pairs then 1 else 0) :: (if slots_distinctb m pairs then 1 else 0)
+                 :: (if pairs_disjointb pairs then 1 else 0) :: nil
     | Exhausted => [1]
     | PFail _ => if oc =? 1 then [0] else [3]
     end
